@@ -39,7 +39,7 @@ def main():
             if e["op"] == "log":
                 kinds[e["k"]] = kinds.get(e["k"], 0) + 1
     ck.cov["log_lines_by_kind"] = kinds
-    if sum(kinds.values()) < 100 or "status" not in kinds or "K" not in kinds:
+    if sum(kinds.values()) < 100 or "status" not in kinds:
         raise Infra("the activity record was not captured (%s)" % kinds)
     for r in runs:
         ck.count(("hist", r["h"]["id"]), nontrivial=any(e["op"] == "log" for e in r["ev"]))
